@@ -381,9 +381,28 @@ def var_names(d, defs):
     return names
 
 
+NC_MODE = [False]
+
+
+class NC(int):
+    """An int that notices being cloned: tawazi hands constants and defaults to the node functions as the very objects the
+    description wrote (it never copies them); a copy — deep or shallow — shows up as a different VALUE."""
+    def __deepcopy__(self, memo):
+        return NC(int(self) + 1000)
+
+    def __copy__(self):
+        return NC(int(self) + 1000000)
+
+
+def crepr(v):
+    if NC_MODE[0] and isinstance(v, int) and not isinstance(v, bool):
+        return "NC(%d)" % v
+    return repr(v)
+
+
 def sarg(a, names):
     if a[0] == "c":
-        return repr(a[1])
+        return crepr(a[1])
     return names[a[1]] + "".join("[%r]" % (tuple(k) if _t == "t" else k,) for _t, k in a[2])
 
 
@@ -441,7 +460,7 @@ def def_source(d, defs, oracle):
         lines.append("    return [%s]" % ", ".join(sarg(a, names) for _k, a in r["items"]))
     elif r["shape"] == "d":
         lines.append("    return {%s}" % ", ".join("%r: %s" % (k, sarg(a, names)) for k, a in r["items"]))
-    params = ", ".join(p["name"] + ("=%r" % (p["default"],) if "default" in p else "") for p in d["params"])
+    params = ", ".join(p["name"] + ("=%s" % crepr(p["default"]) if "default" in p else "") for p in d["params"])
     return "def %s(%s):\n%s\n" % (d["name"], params, "\n".join(lines) or "    pass")
 
 
@@ -511,7 +530,13 @@ def build_real(mod, attrs, maxc, is_async, is_async_inner=False):
     env = dict(wrap_lib(attrs))
     dags = []
     for k, d in enumerate(mod["defs"]):
-        exec(def_source(d, mod["defs"], False), env)   # noqa: S102
+        NC_MODE[0] = True       # int constants and defaults of the REAL description notice being cloned
+        try:
+            src_ = def_source(d, mod["defs"], False)
+        finally:
+            NC_MODE[0] = False
+        env["NC"] = NC
+        exec(src_, env)   # noqa: S102
         fn = env[d["name"]]
         if d.get("qual"):
             fn.__qualname__ = fn.__name__ = d["qual"]
